@@ -358,6 +358,9 @@ pub mod lists {
     }
 }
 
+/// `write_list`, `definitive_tactic` and friends of `lists.rs` with plain data.
+pub mod lists;
+
 /// Use trees, the comparators behind reordering and the grouping of reorderable items.
 ///
 /// Textual forms (shared by the checks of import reordering and import merging):
